@@ -5,7 +5,7 @@
    Stack depth and wall-clock time are runtime and are searched by the correspondence streams of vlib/checks/c01.py. *)
 From Coq Require Import List Bool NArith ZArith Arith.
 From SliceV Require Import Gen.PanicSites Driver.PanicInventory Syntax.Lexer Syntax.LexerProofs Doc.Comment Doc.CommentProofs
-  Syntax.Parser Syntax.ParserTotal Sema.Resolve Sema.ResolveProofs Base.Bytes Codec.Wire Codec.Reply Codec.ReplyProofs Prep.PrepCore Prep.PrepCoreProofs.
+  Syntax.Parser Syntax.ParserTotal Driver.Files Driver.FilesProofs Sema.Resolve Sema.ResolveProofs Base.Bytes Codec.Wire Codec.Reply Codec.ReplyProofs Prep.PrepCore Prep.PrepCoreProofs.
 Import ListNotations.
 Local Open Scope nat_scope.
 
@@ -20,6 +20,9 @@ Theorem C01_parser_total : forall fuel s, n s + 1 <= fuel -> ok_res 0 s (p_file 
 Proof. exact p_file_ok. Qed.
 Theorem C01_parse_total : forall blocks, parse_blocks blocks <> PErr_ PeFuel.
 Proof. exact parse_blocks_total. Qed.
+(* searching the reference directories ends on every file system, symbolic links that lead back into a directory included *)
+Theorem C01_directory_walk_terminates : forall fs k p, walk (S (length (known_ids fs)) + k) [] fs p = walk (S (length (known_ids fs))) [] fs p.
+Proof. exact walk_terminates. Qed.
 (* the doc-comment parser always returns a comment or a lexical/syntax error *)
 Theorem C01_comment_parser_total : forall lines, parse_comment lines <> Err PFuel.
 Proof. exact parse_comment_total. Qed.
